@@ -6,6 +6,8 @@ import (
 	"fmt"
 	"strings"
 	"sync"
+	"sync/atomic"
+	"syscall"
 	"time"
 
 	"github.com/internetarchive/Zeno/internal/pkg/config"
@@ -54,6 +56,94 @@ func init() {
 				case <-time.After(3 * time.Second):
 					return fmt.Sprintf("hang pausedBefore=%v: StopDiskWatcher() did not return within 3s while the disk stayed low", wasPaused)
 				}
+			}
+			if str(in, "op") == "statfs" {
+				// the numbers CheckDiskUsage must use, taken independently, and its decision for settings just
+				// below / just above the space available to the process and between "available" and "free"
+				var st syscall.Statfs_t
+				if err := syscall.Statfs(".", &st); err != nil {
+					return "harness-error statfs: " + err.Error()
+				}
+				avail := st.Bavail * uint64(st.Bsize)
+				free := st.Bfree * uint64(st.Bsize)
+				old := config.Get().MinSpaceRequired
+				defer func() { config.Get().MinSpaceRequired = old }()
+				const gib = float64(1 << 30)
+				decide := func(bytes float64) string {
+					config.Get().MinSpaceRequired = bytes / gib
+					if watchers.CheckDiskUsage(".") != nil {
+						return "refuse"
+					}
+					return "accept"
+				}
+				margin := float64(256 << 20)
+				out := fmt.Sprintf("avail=%d free=%d below=%s above=%s", avail, free, decide(float64(avail)-margin), decide(float64(avail)+margin))
+				if float64(free) > float64(avail)+4*margin {
+					out += " between=" + decide((float64(avail)+float64(free))/2)
+				} else {
+					out += " between=no-gap"
+				}
+				return out
+			}
+			if str(in, "op") == "slowworker" {
+				// low → sufficient (one worker is slow to acknowledge the resume) → low again before that
+				// acknowledgement → the worker acknowledges. The disk is low at the end: the pipeline must be paused.
+				if !started {
+					started = true
+					config.Get().MinSpaceRequired = 1e-9
+					go watchers.WatchDiskSpace(".", 2*time.Millisecond)
+					time.Sleep(10 * time.Millisecond)
+				}
+				holdMs := num(in, "holdMs", 20)
+				var workerPaused atomic.Bool
+				release := make(chan struct{})
+				quit := make(chan struct{})
+				ch := pause.Subscribe()
+				go func() {
+					for {
+						select {
+						case <-quit:
+							return
+						case _, ok := <-ch.PauseCh:
+							if !ok {
+								return
+							}
+							workerPaused.Store(true)
+							<-release
+							select {
+							case ch.ResumeCh <- struct{}{}:
+							case <-quit:
+								return
+							}
+							workerPaused.Store(false)
+						}
+					}
+				}()
+				wait := func(f func() bool) bool {
+					deadline := time.Now().Add(time.Second)
+					for !f() && time.Now().Before(deadline) {
+						time.Sleep(time.Millisecond)
+					}
+					return f()
+				}
+				config.Get().MinSpaceRequired = 1073741824
+				first := wait(func() bool { return pause.IsPaused() && workerPaused.Load() })
+				config.Get().MinSpaceRequired = 1e-9
+				time.Sleep(time.Duration(holdMs) * time.Millisecond)
+				config.Get().MinSpaceRequired = 1073741824
+				time.Sleep(time.Duration(holdMs) * time.Millisecond)
+				close(release)
+				// settle: several ticks
+				time.Sleep(60 * time.Millisecond)
+				end := wait(func() bool { return pause.IsPaused() && workerPaused.Load() })
+				res := fmt.Sprintf("firstPause=%v lowAtEnd=true managerPaused=%v workerPaused=%v", first, pause.IsPaused(), workerPaused.Load())
+				_ = end
+				// leave the watcher running and un-paused for the next line
+				config.Get().MinSpaceRequired = 1e-9
+				wait(func() bool { return !pause.IsPaused() })
+				close(quit)
+				pause.Unsubscribe(ch)
+				return res
 			}
 			if !started {
 				started = true
